@@ -11,7 +11,8 @@ EXPLANATION = (
     "2^n_frac on all branches (C01.R3). Residual: float equality of values beyond 2^53 (outside the quantifier)."
     ' Added after the third round of seeded changes: the value type get_val() casts to is never a narrow NumPy dtype (C01.R6).'
     ' Added after the fourth round of seeded changes: C20.R8 objects carry only the documented attributes and no function writes module-level containers (no caches / memos that go stale) (a memoised get_val() goes stale when codes change through a view).'
-    " Added after the fifth round of seeded changes: the compared values are not re-typed before the comparison (no astype to the other operand's dtype); constructor state (C20.R2); C20.R8 also forbids mutable default arguments and private attributes hung on operands (x._cache, x.__dict__[...]).")
+    " Added after the fifth round of seeded changes: the compared values are not re-typed before the comparison (no astype to the other operand's dtype); constructor state (C20.R2); C20.R8 also forbids mutable default arguments and private attributes hung on operands (x._cache, x.__dict__[...])."
+    ' Added after the sixth round of seeded changes: item() reads its element through astype / get_val on every path (C16.R2).')
 ASSUMPTIONS = ["Python // floors; / on int64 and a power of two is exact below 2^53"]
 TRUSTED = ["CPython ast", "fxlint term normaliser"]
 
